@@ -30,7 +30,17 @@ theorem resolveRes_uf (st : Static) (d : Defs) (ctx : RCtx) (ref : Nat) (e : Exp
   rw [resolverEval_view st (unfreeze_view d)]
   cases resolverEval st d ctx {} e with
   | error m => rfl
-  | ok x => obtain ⟨v, c⟩ := x; simp only; uf_tac
+  | ok x =>
+    obtain ⟨v, c⟩ := x; simp only
+    simp only [Defs.unfreeze, ufRes, Except.map]
+    repeat' split
+    all_goals (first
+      | rfl
+      | contradiction
+      | (simp_all; done)
+      | (simp_all
+         repeat' split
+         all_goals (first | rfl | contradiction | (exfalso; exact Nat.lt_irrefl _ (Nat.lt_of_lt_of_le ‹_ < USIZE_MAX1› ‹USIZE_MAX1 ≤ _›)) | (rename_i heq; cases heq; rfl) | (subst_vars; rfl) | (subst_vars; simp_all; done) | (simp_all; done))))
 
 theorem resolveAlign_uf (st : Static) (d : Defs) (ctx : RCtx) (ref : Nat) (e : Expr) :
     resolveAlign st d.unfreeze ctx ref e = (resolveAlign st d ctx ref e).map ufRes := by
